@@ -61,6 +61,16 @@ def monitor(case, obs):
             if prev is not None and (not prev or prev[-1][0] != name or st != prev[:-1]):
                 return "closed() of %s fired but the stack went from %r to %r" % (name, prev, st)
         prev = list(st)
+    # when the stack becomes empty the application ends - and the scheduler ends it only then: a run that returned without any explicit stop request
+    # (exit / force-quit / close of the outermost loop / the quit key) must have an empty stack
+    if obs["outcome"] == ["returned"] and prev:
+        explicit = any(ev[0] == "api" and ev[1] in ("raise_exit", "force_quit", "close_loop", "new_loop") for i, ev, ctx in x.events())
+        quit_key = any(ev[0] == "cb" and ev[2] == "input" for i, ev, ctx in x.events()) and True
+        keys = [ev[4] for i, ev, ctx in x.events() if ev[0] == "cb" and ev[2] == "input"]
+        rets = [e.get("ret") for s_ in case["screens"] for e in ((s_.get("scripts") or {}).get("input") or [])]
+        may_quit = "q" in keys or "q" in rets
+        if not explicit and not may_quit:
+            return "the application ended although the screen stack is not empty (%r) and nothing requested an exit" % (prev,)
     return None
 
 
